@@ -369,6 +369,104 @@ pub fn scripts(tier: &Tier) -> Vec<Script> {
     v
 }
 
+/// The producer after a restart. A full node (real consensus thread) receives a chain, is shut
+/// down, and is started again from its own block files, once with empty blockchain settings and
+/// once with the position a host application persists (last block id / hash / timestamp, genesis
+/// block, lowest acceptable block, fork id). A fee-paying transaction without routing path is
+/// pooled and the real Mempool::bundle_block is asked for a block at several moments before and
+/// after two heartbeats: whatever it assembles must be accepted by the node itself.
+fn producer_after_restart(rep: &mut Report) {
+    use crate::factory::World;
+    use crate::fullnode::FullNode;
+    use crate::props::c12::{deliver, node_cfg};
+    use crate::seams::{key, ManualClock, MemIO};
+    use saito_core::core::defs::PrintForLog;
+    for g in [10u64, 3] {
+        let mut w = World::standard(g);
+        let mut t = 0usize;
+        for i in 0..4 {
+            t = match w.honest_child(t, 0, &format!("R{}", i + 2)) {
+                Ok(b) => b,
+                Err(e) => {
+                    rep.machinery(format!("producer after restart: {}", e));
+                    return;
+                }
+            };
+        }
+        let hb = w.cfg.consensus.heartbeat_interval;
+        let io = MemIO::new();
+        let mut n0 = FullNode::new(key(0), node_cfg(&w), io.clone(), ManualClock::new(5_000_000));
+        let _ = n0.init();
+        for i in w.path(t) {
+            let _ = deliver(&mut n0, &w.blocks[i].bytes);
+        }
+        if n0.tip().1 != w.blocks[t].hash {
+            rep.machinery("producer after restart: the first life did not reach the tip".into());
+            return;
+        }
+        let saved = {
+            let bc = n0.blockchain.try_read().unwrap();
+            (bc.last_block_id, bc.last_block_hash, bc.last_timestamp, bc.genesis_block_id, bc.genesis_timestamp, bc.lowest_acceptable_timestamp, bc.lowest_acceptable_block_hash, bc.lowest_acceptable_block_id, bc.fork_id)
+        };
+        let files = n0.io.files();
+        for with_saved_position in [false, true] {
+            for dt_half_hb in [1u64, 2, 3, 4, 5] {
+                rep.evaluations += 1;
+                let ctx = json!({"g": g, "restart_with_saved_position": with_saved_position, "elapsed_half_heartbeats": dt_half_hb});
+                let mut cfg = node_cfg(&w);
+                if with_saved_position {
+                    cfg.blockchain.last_block_id = saved.0;
+                    cfg.blockchain.last_block_hash = saved.1.to_hex();
+                    cfg.blockchain.last_timestamp = saved.2;
+                    cfg.blockchain.genesis_block_id = saved.3;
+                    cfg.blockchain.genesis_timestamp = saved.4;
+                    cfg.blockchain.lowest_acceptable_timestamp = saved.5;
+                    cfg.blockchain.lowest_acceptable_block_hash = saved.6.to_hex();
+                    cfg.blockchain.lowest_acceptable_block_id = saved.7;
+                    cfg.blockchain.fork_id = saved.8.map(|f| f.to_hex()).unwrap_or_default();
+                }
+                let mut n = FullNode::new(key(0), cfg.clone(), MemIO::with_files(files.clone()), ManualClock::new(6_000_000));
+                if !n.init().is_done() {
+                    rep.violate("producer-after-restart/start-aborts", format!("{}", ctx), ctx.clone());
+                    continue;
+                }
+                if n.tip().1 != w.blocks[t].hash {
+                    rep.outcome("producer-after-restart:came-up-on-another-tip(C12)");
+                    continue;
+                }
+                let ts = w.blocks[t].ts + dt_half_hb * hb / 2;
+                let Some(tx) = w.payment(t, &key(1), &key(2).public, 900, 50_000, ts) else {
+                    rep.machinery("producer after restart: no payment".into());
+                    return;
+                };
+                let bc = n.blockchain.clone();
+                let mp = n.mempool.clone();
+                let storage = &n.consensus.storage;
+                let made = crate::exec::run(async {
+                    let bc = bc.read().await;
+                    let mut mp = mp.write().await;
+                    mp.add_transaction_if_validates(tx, &bc).await;
+                    mp.bundle_block(&bc, ts, None, &cfg, storage).await
+                });
+                match made {
+                    Outcome::Done(Some(b)) => {
+                        let bytes = block_bytes(&b);
+                        let work = b.total_work;
+                        let r = deliver(&mut n, &bytes);
+                        if !r.is_done() || n.tip().1 != b.hash {
+                            rep.violate(&format!("producer-after-restart/own-block-rejected/{}", if with_saved_position { "saved-position" } else { "empty-settings" }), format!("{}: the block assembled {} ms after the tip (routing work {}) is not adopted by the node that made it", ctx, ts - w.blocks[t].ts, work), ctx.clone());
+                        } else {
+                            rep.outcome("producer-after-restart:own-block-accepted");
+                        }
+                    }
+                    Outcome::Done(None) => rep.outcome("producer-after-restart:no-block"),
+                    o => rep.violate("producer-after-restart/abort", format!("{}: {}", ctx, o.label()), ctx.clone()),
+                }
+            }
+        }
+    }
+}
+
 pub fn main(tier: Tier, _replay: Option<String>) -> i32 {
     let mut rep = Report::new("C07", tier.clone(), "model_checking");
     let mut ss = scripts(&tier);
@@ -395,6 +493,7 @@ pub fn main(tier: Tier, _replay: Option<String>) -> i32 {
         rep.merge(r);
         all.extend(s);
     }
+    producer_after_restart(&mut rep);
     rep.states = all.len() as u64;
     rep.required_outcomes = vec!["peer-block-conflicting-with-the-pool".into(), "no-block".into()];
     if !rep.outcomes.keys().any(|k| k.contains("+atr")) {
